@@ -106,7 +106,7 @@ func (e *env) summaries(keep bool) []SubSummary {
 
 func (e *env) violate(sig, what string, w map[string]any) {
 	w["schedule"] = e.sc
-	e.res.Violations = append(e.res.Violations, Violation{Sig: sig, What: what, Witness: w})
+	e.res.Violations = append(e.res.Violations, Violation{Sig: sig, What: what, Witness: rawJSON(w)})
 }
 
 // finish evaluates every subscriber against the reference and fills the
@@ -119,7 +119,7 @@ func (e *env) finish() {
 	e.count("events_handed_over", int64(len(log)))
 	e.count(fmt.Sprintf("gomaxprocs_%d", e.sc.Procs), 1)
 	e.count("stop_"+e.sc.Stop.Mode, 1)
-	e.count("family_"+e.sc.Family, 1)
+	e.res.Counters["family_"+e.sc.Family]++
 	if e.sc.Stop.Double {
 		e.count("stop_double", 1)
 	}
@@ -201,8 +201,12 @@ func (e *env) finish() {
 		default:
 			e.count("backlog_nonempty", 1)
 		}
-		if int64(len(s.reg.backlog)) > res.Counters["backlog_max"] {
-			res.Counters["backlog_max"] = int64(len(s.reg.backlog))
+		bm := "backlog_max"
+		if e.sc.Family == FamStorm {
+			bm = "storm_backlog_max"
+		}
+		if int64(len(s.reg.backlog)) > res.Counters[bm] {
+			res.Counters[bm] = int64(len(s.reg.backlog))
 		}
 
 		exp := expectedOf(s.reg, log)
@@ -296,6 +300,13 @@ func (e *env) finish() {
 					"received_around": itemsStr(recv, bad-3, bad+6),
 					"expected_len":    len(exp), "received_len": len(recv),
 					"cancel_called": cancelled,
+					"logical_time": map[string]any{
+						"stop_called_at":           e.stopBegunTick.Load(),
+						"subscribe_returned_at":    s.subRetTick,
+						"handover_of_read_item_at": tickOf(liveEv),
+						"handover_of_missing_at":   tickOf(missingEv(evIdx, exp, bad)),
+						"note":                     "ticks of one global counter; 0 = not applicable / did not happen",
+					},
 				})
 			continue
 		}
@@ -307,7 +318,7 @@ func (e *env) finish() {
 			for i := nb; i < len(recv); i++ {
 				ev := log[s.reg.pos+i-nb]
 				if ev.preTick > cancelRet {
-					e.violate("delivered-after-cancel-returned/"+s.plan.Cancel+"/"+s.plan.Kind,
+					e.violate("delivered-after-cancel-returned/"+s.plan.Cancel,
 						fmt.Sprintf("subscriber %d read %s whose emission began after its Cancel() had returned", s.idx, recv[i]),
 						map[string]any{"sub": s.idx, "plan": s.plan, "position": i,
 							"event_begin_tick": ev.preTick, "cancel_returned_tick": cancelRet})
@@ -341,6 +352,20 @@ func (e *env) finish() {
 		sc := e.sc
 		res.Schedule = &sc
 	}
+}
+
+func missingEv(idx map[Item]*event, exp []Item, i int) *event {
+	if i < 0 || i >= len(exp) {
+		return nil
+	}
+	return idx[exp[i]]
+}
+
+func tickOf(ev *event) int64 {
+	if ev == nil {
+		return 0
+	}
+	return ev.postTick
 }
 
 func indexOf(log []*event, ev *event) int {
